@@ -1,0 +1,17 @@
+//go:build verif
+
+// Package verifcli is a verification-only facade (build tag "verif") over
+// cmd/j5/internal/cli, importable from outside cmd/j5: it runs the real
+// `j5 j5s fmt` command function, including its --write path. Adds no behaviour.
+package verifcli
+
+import (
+	"context"
+
+	"github.com/pentops/j5/cmd/j5/internal/cli"
+)
+
+// J5sFmt runs `j5 j5s fmt` with --dir / --file / --write.
+func J5sFmt(ctx context.Context, dir, file string, write bool) error {
+	return cli.VerifJ5sFmt(ctx, dir, file, write)
+}
